@@ -53,14 +53,17 @@ def shortest_crash(ctx):
     return r
 
 
-def run_overlay(ctx, behaviours, *, db="alt", child=False, race=False, tag="tt", timeout=600):
+UNITS_MS = [700, 1000, 250, 1300]     # code-side length of one model clock unit, round robin per behaviour
+
+
+def run_overlay(ctx, behaviours, *, db="alt", child=False, race=False, tag="tt", timeout=600, units_ms=None):
     """Replays behaviours on the real collectors.  Returns (rc, output, trace rows or [])."""
     d = ctx.sub(tag)
     inp = os.path.join(d, "in.json")
     outp = os.path.join(d, "out.ndjson")
     if os.path.exists(outp):
         os.remove(outp)
-    json.dump({"behaviours": behaviours, "db": db, "child": child}, open(inp, "w"))
+    json.dump({"behaviours": behaviours, "db": db, "child": child, "units_ms": units_ms or UNITS_MS}, open(inp, "w"))
     rc, out = vlib.go_overlay_test(ctx, "prometheus", OVERLAY, "^TestVerifTunnelTime$", race=race, timeout=timeout,
                                    env_extra={"VERIF_TT_IN": inp, "VERIF_TT_OUT": outp})
     rows = []
@@ -106,8 +109,9 @@ def split_traces(rows):
     return mode, traces
 
 
-def _units(x):
-    return int(round(float(x) * SCALE))
+def _units(x, unit_ms=1000):
+    """seconds shown by the collectors -> thousandths of a model clock unit (one unit = unit_ms on the code side)"""
+    return int(round(float(x) * 1000.0 * SCALE / unit_ms))
 
 
 def densify(traces):
@@ -130,6 +134,7 @@ def densify(traces):
             NS = max(NS, int(r.get("s", 0) or 0))
         pre.append((tn, t, labels, locid))
     for tn, t, labels, locid in pre:
+        unit = int(t[0].get("unit_ms") or 1000)
         for r in t:
             ev = r["ev"]
             if ev == "Reset":
@@ -142,15 +147,15 @@ def densify(traces):
                     for kname, v in (r.get("keyv") or {}).items():
                         m = re.match(r"^k(\d+)$", kname)
                         if m and 1 <= int(m.group(1)) <= NK:
-                            key[int(m.group(1)) - 1] += _units(v)
+                            key[int(m.group(1)) - 1] += _units(v, unit)
                         else:
-                            key[NK] += _units(v)
+                            key[NK] += _units(v, unit)
                     for e in (r.get("locv") or []):
                         i = locid.get(tuple(e["l"]))
                         if i:
-                            loc[i - 1] += _units(e["v"])
+                            loc[i - 1] += _units(e["v"], unit)
                         else:
-                            loc[NL] += _units(e["v"])
+                            loc[NL] += _units(e["v"], unit)
                 d = {"ev": "CollectEnd", "s": r["s"], "panic": bool(r.get("panic")), "key": key, "loc": loc}
             elif ev == "Expo":
                 continue
